@@ -92,6 +92,24 @@ func runC14(c *core.Case) {
 	} else {
 		c.Tag("radius-0")
 	}
+	if r.P(0.05) { // error clause of the property: negative radius or invalid zoom
+		br, bh, bv := rad, h, v
+		switch r.Intn(3) {
+		case 0:
+			br = -math.Max(rad, 1e-9)
+		case 1:
+			bh = []int64{-1, 36, 40}[r.Intn(3)]
+		default:
+			bv = []int64{-1, 36, 40}[r.Intn(3)]
+		}
+		res, e := transform.GetExtendedSpatialIdsWithinRadiusOfLine(a, b, br, bh, bv, r.Bool())
+		c.Call()
+		c.Tag("error-clause")
+		if e == nil {
+			c.Fail("corridor-missing-error", nil, "corridor with radius %v, zooms (%d,%d) returned %d IDs and no error", br, bh, bv, len(res))
+			return
+		}
+	}
 	line, err := shape.GetExtendedSpatialIdsOnLine(a, b, h, v)
 	c.Call()
 	if err != nil {
